@@ -161,10 +161,17 @@ fn gen(t: &mut Tape, _tier: Tier) -> Scenario {
         let expect = enc.model.out.clone();
         let (bad, why) = bad_symbol(t, &enc);
         let _ = enc.encode(bad);
-        let marker = t.below(2) == 1;
+        // how the stream ends after the illegal copy: declared size, end marker, or
+        // neither (size unknown and the input simply stops: the copy is the last symbol)
+        let term = t.below(3);
+        let marker = term == 1;
+        let unknown = term != 0;
         let declared = (expect.len() + sym_len(bad)) as u64;
         if marker {
             enc.encode_end_marker();
+        }
+        if term == 2 {
+            sc.set_i("ends_after_bad_copy", 1);
         }
         let payload = enc.finish_segment();
         let mut opts = OptSpec::default();
@@ -194,13 +201,13 @@ fn gen(t: &mut Tape, _tier: Tier) -> Scenario {
                 lp: props.lp,
                 pb: props.pb,
                 dict: dict as u32,
-                size: if marker { None } else { Some(declared) },
+                size: if unknown { None } else { Some(declared) },
             }
             .store(&mut sc);
             sc.set_b("input", payload);
         } else {
             sc.set_i("ep", if which == 3 { EP_STREAM } else { EP_LZMA });
-            let mut f = lzma_header(props, dict_hdr, Some(if marker { u64::MAX } else { declared }));
+            let mut f = lzma_header(props, dict_hdr, Some(if unknown { u64::MAX } else { declared }));
             f.extend_from_slice(&payload);
             sc.set_b("input", f);
             if which == 3 {
@@ -383,6 +390,9 @@ fn exec(sc: &Scenario, ctx: &mut Ctx) -> Vec<Violation> {
     if sc.i("wrap_pos") <= 1 && sc.i("laps") >= 1 {
         ctx.stats.hit("probe.bad_copy_at_wrap_point_plus_0_or_1");
     }
+    if sc.i("ends_after_bad_copy") == 1 {
+        ctx.stats.hit("probe.illegal_copy_is_the_last_symbol_size_unknown_no_marker");
+    }
     if sc.i("low_limit") == 1 {
         ctx.stats.hit("arm.memory_limit_below_the_dictionary");
     }
@@ -420,7 +430,7 @@ fn exec(sc: &Scenario, ctx: &mut Ctx) -> Vec<Violation> {
 pub static C09: SimpleProp = SimpleProp {
     id: "C09",
     level: "exploration",
-    rule: "one evaluation = one decode of (valid reference-encoded prefix + one illegal copy: distance produced+1, dictionary+1, one lap back, 2^31, 2^32-1, stale repeated distance at stream start or across an LZMA2 dictionary reset, matched literal with stale rep0) placed at wrap-relative positions 0,1,dict-1,dict,dict+1,k*dict±1 and random; circular window via lzma_decompress / raw decoder (dictionary 1..64, 4096..) / Stream, with no memory limit, one >= the dictionary, or one below it (the delivered bytes must then still be a prefix of what the symbols define), accumulating window via LZMA2 plain and inside .xz; every case distinct by scenario hash and non-trivial by construction",
+    rule: "one evaluation = one decode of (valid reference-encoded prefix + one illegal copy: distance produced+1, dictionary+1, one lap back, 2^31, 2^32-1, stale repeated distance at stream start or across an LZMA2 dictionary reset, matched literal with stale rep0) followed by a declared size, an end marker, or nothing at all (size unknown), placed at wrap-relative positions 0,1,dict-1,dict,dict+1,k*dict±1 and random; circular window via lzma_decompress / raw decoder (dictionary 1..64, 4096..) / Stream, with no memory limit, one >= the dictionary, or one below it (the delivered bytes must then still be a prefix of what the symbols define), accumulating window via LZMA2 plain and inside .xz; every case distinct by scenario hash and non-trivial by construction",
     runs_quick: 60_000,
     runs_thorough: 24_000_000,
     both_profiles: false,
